@@ -396,6 +396,27 @@ def check(pm: ProgramModel, ctx: Ctx) -> None:
                   bad=f"metric {meth} requested alone reports {_short([(e['name'], e['result'], e['size'], e['ratio']) for e in r1])}, "
                       f"the full report has {_short(full_by.get(r1[0]['name']) if len(r1) == 1 else None)}")
     ctx.floor("C17-FILTER", "metrics requested alone", nalone, 36)
+    # produced "without error" on every well-formed model, deep ones included: the nesting of calls must not grow with
+    # the depth of the tree (see C16-DEPTH-INDEPENDENT)
+    seen_d = []
+    for n_ in (6, 12):
+        r_ = mb.feature("c0")
+        cur = r_
+        for i in range(1, n_):
+            nxt = mb.feature(f"c{i}")
+            mb.relation(cur, [nxt], 1 if i % 2 else 0, 1)
+            cur = nxt
+        itd = Interp(pm, max_depth=60)
+        try:
+            opd = itd.eval_call_class(fmm)
+            itd.call(ex, [opd, mb.model(r_, [])])
+            seen_d.append(itd.deepest)
+        except AbsRaise as exc:
+            seen_d.append(("raise", exc.what))
+    ctx.check(len(seen_d) == 2 and seen_d[0] == seen_d[1] and not isinstance(seen_d[0], tuple), "C17-DEPTH-INDEPENDENT",
+              "nesting:report", where_cls, f"the report nests calls {seen_d[0]} deep on a chain of 6 and of 12 features alike",
+              bad=f"the report nests calls {seen_d[0]} deep on a chain of 6 features and {seen_d[1]} on a chain of 12: the nesting "
+                  f"grows with the depth of the tree, so a deep enough well-formed model ends in RecursionError")
     ctx.floor(rule, "obligations", len(ctx.obligations), 60)
 
 
